@@ -1,5 +1,5 @@
 HARNESSES = {
-    'PerCall': dict(split={'call': 25, 'hires': 2}),
+    'PerCall': dict(split={'call': 25, 'hires': 2}, quick=dict(params={'hotall': 0}), thorough=dict(params={'hotall': 1}, job_timeout_s=3000)),
     'Runs': dict(split={'verb': 18}),
     'Mixed': dict(split={'verb': 18}, quick=dict(params={'K': 2}), thorough=dict(params={'K': 3})),
     'Transcode': dict(split={'op': 16}, quick=dict(params={'L': 2}), thorough=dict(params={'L': 3}, job_timeout_s=3000)),
